@@ -26,6 +26,8 @@ func SmallSpecs() []*Spec {
 		Distributed("2001:db8::/126", 128, false, 0),
 		Distributed("10.0.0.0/29", 32, true, 1),
 		Distributed("10.0.0.0/29", 32, true, 2),
+		DistributedMAC("10.0.0.0/29", 32, false, 0),
+		DistributedMAC("10.0.0.0/29", 32, true, 1),
 		PoolAlloc("10.0.0.0/29", 32),
 		PoolAlloc("2001:db8::/62", 64),
 		Local("10.0.0.0/30", 32),
@@ -57,6 +59,8 @@ func LargeSpecs() []*Spec {
 		Epoch("10.0.0.128/25", 32, 2),
 		Distributed("10.1.0.0/24", 32, false, 0),
 		Distributed("10.1.0.0/24", 32, true, 1),
+		DistributedMAC("10.1.0.0/24", 32, false, 0),
+		DistributedMAC("10.1.0.0/25", 32, true, 2),
 		PoolAlloc("10.2.0.0/24", 32),
 		DHCP4("10.3.0.0/23", "10.3.0.1", 10, 5),
 		DHCP6Addr("2001:db8::/64"),
@@ -70,10 +74,111 @@ func LargeSpecs() []*Spec {
 	}
 }
 
+// TickerSpecs are the lease-mode distributed pools whose epochs are advanced by the allocator's own
+// ticker goroutine (epoch advance + store cleanup + store change echo); they run inside synctest bubbles.
+func TickerSpecs() []*Spec {
+	return []*Spec{
+		DistributedTicker("10.0.0.0/29", 32, 1, false),
+		DistributedTicker("10.0.0.0/29", 32, 2, false),
+		DistributedTicker("10.0.0.0/29", 32, 1, true),
+		DistributedTicker("10.0.0.0/28", 32, 2, true),
+	}
+}
+
+// ScaleSpecs are pools of 500–4000 units driven through fill / mass-expiry (or mass-release) / refill
+// scenarios: batch limits, per-call sweep caps and generation wrap only show at this size.
+func ScaleSpecs() []*Spec {
+	return []*Spec{
+		Epoch("10.8.0.0/22", 32, 1),
+		Epoch("10.8.0.0/21", 32, 1),
+		Epoch("10.8.0.0/21", 32, 2),
+		Epoch("10.8.0.0/20", 32, 1),
+		Bitmap("10.8.0.0/22", 32),
+		Bitmap("2001:db8::/52", 64),
+		Distributed("10.8.0.0/22", 32, true, 1),
+		DistributedMAC("10.8.0.0/21", 32, true, 2),
+		Distributed("10.8.0.0/23", 32, false, 0),
+		PoolAlloc("10.8.0.0/23", 32),
+		DHCP4("10.8.0.0/22", "10.8.0.1", 0, 0),
+		DHCP6PD("2001:db8::/46", 56),
+		PPPoE("10.8.0.0/23", "10.8.0.1"),
+		Peer("10.8.0.0/23", "10.8.0.1"),
+	}
+}
+
+// ScaleHistory: fill the pool to exhaustion, let every lease lapse at once (or release everything),
+// refill with new subscribers interleaved with returning old ones, run past the generation wrap, refill again.
+func ScaleHistory(s *Spec, c Caps, rng *rand.Rand) []Op {
+	u := s.Usable
+	if u <= 0 {
+		return nil
+	}
+	var h []Op
+	old := func(i int) string { return fmt.Sprintf("o%d", i) }
+	for i := 0; i < u; i++ {
+		h = append(h, Op{K: "alloc", Sub: old(i)})
+	}
+	h = append(h, Op{K: "alloc", Sub: "overflow-1"})
+	expire := c.Epoch && s.Grace > 0
+	kept := map[int]bool{}
+	if expire {
+		// a few subscribers keep renewing through the mass expiry
+		var keep []int
+		if c.Renew {
+			for k := 0; k < 5; k++ {
+				i := rng.IntN(u)
+				if !kept[i] {
+					kept[i] = true
+					keep = append(keep, i)
+				}
+			}
+		}
+		for e := 0; e < s.Grace+1; e++ {
+			h = append(h, Op{K: "epoch"})
+			for _, i := range keep {
+				h = append(h, Op{K: "renew", Sub: old(i)})
+			}
+		}
+	} else {
+		for _, i := range rng.Perm(u) {
+			if rng.IntN(50) == 0 {
+				kept[i] = true
+				continue
+			}
+			h = append(h, Op{K: "release", Sub: old(i)})
+		}
+	}
+	// refill: new subscribers interleaved with returning old ones
+	for i := 0; i < u/2; i++ {
+		h = append(h, Op{K: "alloc", Sub: fmt.Sprintf("n%d", i)})
+		if rng.IntN(3) == 0 {
+			h = append(h, Op{K: "alloc", Sub: old(rng.IntN(u))})
+		}
+		if rng.IntN(40) == 0 {
+			h = append(h, Op{K: "release", Sub: fmt.Sprintf("n%d", rng.IntN(i+1))})
+		}
+	}
+	if expire {
+		for e := 4 + rng.IntN(4); e > 0; e-- {
+			h = append(h, Op{K: "epoch"})
+			if rng.IntN(2) == 0 {
+				h = append(h, Op{K: "alloc", Sub: fmt.Sprintf("w%d", e)})
+			}
+		}
+	}
+	for i := 0; i < u/3; i++ {
+		h = append(h, Op{K: "alloc", Sub: fmt.Sprintf("m%d", i)})
+	}
+	return h
+}
+
 // Caps probes which optional operations a spec's pool supports.
 type Caps struct{ Renew, Epoch, Specific, RelVal, Reload, Reapply, Fault, Move bool }
 
 func ProbeCaps(s *Spec) Caps {
+	if s.Caps != nil {
+		return *s.Caps
+	}
 	p, err := s.New()
 	if err != nil {
 		return Caps{}
@@ -167,6 +272,9 @@ func RunHistory(s *Spec, h []Op, drain bool, rep Report) (*Runner, error) {
 	r, err := NewRunner(s, rep)
 	if err != nil {
 		return nil, err
+	}
+	if len(h) > 2000 {
+		r.SweepEvery = 97
 	}
 	for _, op := range h {
 		r.Do(op)
